@@ -902,7 +902,7 @@ def arm_signature_sources(rec):
                     res[iname] = ("ret", r == "ret", len(LOG))
                 except Exception as e:  # noqa
                     res[iname] = ("TypeCheckError" if isinstance(e, TypeCheckError) else type(e).__name__, None, len(LOG))
-            rec.count("property_derivation.compared": 20, "signature_sources.targets")
+            rec.count("signature_sources.targets")
             rec.case(("signature-source", cname, tname), True)
             if res["well"] != ("ret", True, 1) or res["ill"] != ("TypeCheckError", None, 0):
                 rec.violation("signature-source", {"checker": cname, "target": tname}, f"jaxtyped({cname}) over a {tname}: well-typed call {res['well']}, ill-typed call {res['ill']} (expected ('ret', True, 1) and ('TypeCheckError', None, 0))", mechanism="signature-source-" + tname + "-unchecked")
